@@ -14,10 +14,13 @@ EXTENDS Integers, Sequences, FiniteSets, TLC
 
 VARIABLE r
 
+\* invalid centre-of-mass modes: unrelated word, prefixes / substrings of the valid ones, empty string
+BadComModes == {"bogus", "ang", "lin", "", "near"}
+
 Requests ==
-  [sorted : BOOLEAN, odd : BOOLEAN, uhf : BOOLEAN, mult_ok : BOOLEAN, conv : {0, 1, 2}, sp2 : BOOLEAN,
+  [sorted : {"ok", "reversed", "pad_front", "pad_middle"}, odd : BOOLEAN, uhf : BOOLEAN, mult_ok : BOOLEAN, conv : {0, 1, 2}, sp2 : BOOLEAN,
    exc : {"none", "cis", "rpa", "bogus"}, nstates : BOOLEAN, homog : BOOLEAN, active : {0, 1},
-   com : {"nomd", "none", "linear", "angular", "bogus"}]
+   com : {"nomd", "none", "linear", "angular"} \cup BadComModes]
 
 \* stages in execution order
 StageNo(s) == CASE s = "molecule" -> 1 [] s = "driver" -> 2 [] s = "md_init" -> 3 [] s = "scf" -> 4
@@ -26,12 +29,12 @@ Rej(stage, cls) == [verdict |-> "reject", stage |-> stage, cls |-> cls]
 Accept == [verdict |-> "accept", stage |-> "accept", cls |-> "-"]
 
 Verdict(q) ==
-    IF ~q.sorted THEN Rej("molecule", "ValueError")                       \* check_input
+    IF q.sorted # "ok" THEN Rej("molecule", "ValueError")                 \* check_input (also zero padding in front of / between atoms)
     ELSE IF ~q.uhf /\ q.odd THEN Rej("molecule", "ValueError")             \* Parser: RHF needs even electrons
     ELSE IF q.uhf /\ ~q.mult_ok THEN Rej("molecule", "ValueError")         \* Parser: charge/multiplicity
     ELSE IF q.exc # "none" /\ ~q.nstates THEN Rej("driver", "ValueError")  \* Hamiltonian.__init__
     ELSE IF q.uhf /\ q.exc # "none" THEN Rej("driver", "NotImplementedError")  \* Energy.__init__
-    ELSE IF q.com = "bogus" THEN Rej("md_init", "ValueError")              \* MD initialize, before the first SCF
+    ELSE IF q.com \in BadComModes THEN Rej("md_init", "ValueError")        \* MD initialize, before the first SCF
     ELSE IF q.uhf /\ q.sp2 THEN Rej("scf", "ValueError")                   \* make_Pnew_factory
     ELSE IF q.uhf /\ q.conv = 2 THEN Rej("scf", "NotImplementedError")     \* SCF.forward
     ELSE IF q.active > 0 /\ q.exc = "none" THEN Rej("energy", "Exception") \* after the SCF, before publication
@@ -47,14 +50,20 @@ Verdict(q) ==
 
 \* the preconditions the property lists as documented
 DocViolated(q) ==
-    \/ ~q.sorted
+    \/ q.sorted # "ok"
     \/ (~q.uhf /\ q.odd)
     \/ (q.uhf /\ ~q.mult_ok)
     \/ (q.uhf /\ (q.sp2 \/ q.conv = 2 \/ q.exc # "none"))
     \/ (q.exc = "rpa" /\ ~q.homog)
     \/ (q.exc = "cis" /\ ~q.homog /\ (q.active > 0 \/ q.com # "nomd"))
     \/ (q.active > 0 /\ q.exc = "none")
-    \/ q.com = "bogus"
+    \/ q.com \in BadComModes
+
+B2N(b) == IF b THEN 1 ELSE 0
+\* number of violated preconditions / limitations of a request
+Faults(q) == B2N(q.sorted # "ok") + B2N(~q.uhf /\ q.odd) + B2N(q.uhf /\ ~q.mult_ok) + B2N(q.uhf /\ q.sp2) + B2N(q.uhf /\ q.conv = 2)
+             + B2N(q.uhf /\ q.exc # "none") + B2N(q.exc # "none" /\ ~q.nstates) + B2N(q.exc = "bogus") + B2N(q.exc = "rpa" /\ ~q.homog)
+             + B2N(q.exc = "cis" /\ ~q.homog /\ (q.active > 0 \/ q.com # "nomd")) + B2N(q.active > 0 /\ q.exc = "none") + B2N(q.com \in BadComModes)
 
 Init == r \in Requests
 Next == UNCHANGED r
